@@ -338,10 +338,13 @@ def predicate(moves, free, ssa_mode, offending_float: bool | None, trace=None) -
         cyc = f["cyc_flt"] if offending_float else f["cyc_int"]
         hasfree = any(is_float(x) == offending_float for x in (free or ()))
         longest = f["longest_flt"] if offending_float else f["longest_int"]
-        parts += ["float" if offending_float else "int",
-                  ("cycle2" if longest == 2 else "cycle3+") if cyc else "acyclic", "free" if hasfree else "nofree"]
+        via_xor = (not offending_float) and trace is not None and any(t.startswith("xor ") for t in trace)
+        # the cycle length is only part of the predicate on the xor-swap path (2-cycles and longer cycles are
+        # rotated by different numbers of swaps); everywhere else "cycle" / "acyclic" identifies the code path
+        cyc_tag = "acyclic" if not cyc else "cycle" if not via_xor else "cycle2" if longest == 2 else "cycle3+"
+        parts += ["float" if offending_float else "int", cyc_tag, "free" if hasfree else "nofree"]
         if not offending_float and trace is not None:
-            parts.append("via=xor" if any(t.startswith("xor ") for t in trace) else "via=mv")
+            parts.append("via=xor" if via_xor else "via=mv")
     parts.append(f"ssa={ssa_mode}")
     return ",".join(parts)
 
@@ -433,7 +436,13 @@ def check_graph(st: Stats, moves, free, sample=False, per_operand=True):
     if consistent:  # one SSA value has one width: a shared value is never declared both 32 and 64 bits wide
         k = check_case(st, moves, free, "shared", None, sample)
     else:
+        # attribution only: which failure kinds does the same graph already show with shared values and one
+        # (the first) width per source?  Those are not reported again under ssa=per-operand.
         st.bump("shared_mode_skipped_inconsistent_widths")
+        first_w: dict[str, int] = {}
+        for s_, _, w_ in moves:
+            first_w.setdefault(s_, w_)
+        k = check_case(Stats(), [(s_, d_, first_w[s_]) for s_, d_, _ in moves], free, "shared")
     if (per_operand or not consistent) and len(set(srcs)) < len(srcs):
         check_case(st, moves, free, "per-operand", k, False)
 
@@ -603,10 +612,11 @@ def make_tasks(ctx):
     else:
         add(5, 0, 1, False, (32,), False, per_operand=False, label="int-only D=5, shared SSA values only")
         add(4, 0, 2, True, (32, 64), False, label="int-only D=4, both widths, ordered free lists <=2")
-        add(3, 0, 1, False, (32,), False, zero=2, label="int-only D=3 + zero register (<=2 zero destinations)")
+        add(3, 0, 1, False, (32,), False, zero=1, label="int-only D=3 + zero register")
+        add(2, 0, 2, True, (32,), False, zero=2, label="int-only D=2 + zero register (<=2 zero destinations), ordered free lists <=2")
         add(0, 3, 2, True, (32,), False, label="float-only F=3, ordered free lists <=2")
         add(3, 2, 1, False, (32,), False, label="mixed D=3 F=2")
-        add(2, 2, 2, True, (32, 64), True, label="mixed D=2 F=2, both int widths, all interleavings, ordered free lists <=2")
+        add(2, 2, 2, True, (32,), True, label="mixed D=2 F=2, all interleavings, ordered free lists <=2")
     return tasks, fam
 
 
